@@ -85,7 +85,15 @@ def EQ(expr, value):
 
 
 def has(facts, atom, pol=True):
-    return facts is not None and (atom, pol) in facts
+    """(atom, pol) is among the facts; `(x == 0)` true and `x` false are the same fact (the normaliser writes the first for a switch
+    case and the second for an if)."""
+    if facts is None:
+        return False
+    if (atom, pol) in facts:
+        return True
+    if atom.startswith("(") and atom.endswith(" == 0)") and (atom[1:-6], not pol) in facts:
+        return True
+    return ("(%s == 0)" % atom, not pol) in facts
 
 
 def guard_retvals(fn, atom, pol):
@@ -137,3 +145,31 @@ def check_guarded_entry(ck, X, fn, rule, needed, what, effect_filter=None):
     return ok
 
 
+
+
+# calls that remove a timer source of a module by key: name -> index of the key argument
+TMR_REMOVERS = {"m_mod_src_deregister_tmr": 1, "deregister_internal_tmr": 1}
+TMR_CHARGED = ("m_mod_src_deregister_tmr", "deregister_internal_tmr", "m_mod_src_register_tmr")   # each charges one token
+
+
+def expand_assumes(f, assumes):
+    """Path assumptions with single-definition locals replaced by their defining expression (textual, word-bounded): the atoms of a
+    path over `const bool a = x & F;` locals become atoms over the expressions themselves."""
+    import re as _re
+    from lm import S as _S, strip as _strip
+    defs = {}
+    for ev in f.events():
+        if ev.kind in ("decl", "assign") and ev.rhs is not None and ev.lhs is not None and _strip(ev.lhs)["k"] == "var":
+            defs.setdefault(_S(ev.lhs), []).append(_S(ev.rhs))
+    single = {n: v[0] for n, v in defs.items() if len(v) == 1}
+    out = {}
+    for a, pol in assumes.items():
+        for _i in range(4):
+            b = a
+            for n, v in single.items():
+                b = _re.sub(r"(?<![\w>.])%s(?![\w(])" % _re.escape(n), v, b)
+            if b == a:
+                break
+            a = b
+        out[a] = pol
+    return out
